@@ -69,7 +69,7 @@ func (fr *Frame) callUnknownFunc(ins ssa.Instruction, cc *ssa.CallCommon, fv *Va
 	// A named callback contract may exist: "callback <FuncTypeName>" keyed by the static type name
 	key := "callback " + ex.w.typeName(cc.Value.Type())
 	if c, ok := ex.cs.Funcs[key]; ok {
-		return fr.applyContract(ins, c, key, nil, cc.Signature(), nil, args, resSort)
+		return fr.applyContract(ins, c, key, nil, cc.Signature(), nil, append([]*Val{fv}, args...), resSort)
 	}
 	ex.vc.note("call through function value " + ex.w.typeName(cc.Value.Type()) + ": assumed not to modify state tracked by the verified function; results unconstrained")
 	return fr.havocVal("dyncall", resSort)
